@@ -19,6 +19,10 @@ COMMON_ASSUME = [
 
 PROPS = {}
 
+NOT_APPLICABLE = {
+    "C04": "crash/restart durability lives in SQLite (a wasm build run by wazero), the file system and a second process reopening partially written gzip members; none of that exists in an SSA-level encoding of Zeno's Go code and the decisive behaviour is carried by SQL text executed inside that engine (DESIGN.md section 7)",
+}
+
 PROPS["C18"] = {
     "level": "proof",
     "explanation": "checkThreshold is executed symbolically from its SSA over total,free: 64-bit vectors and minSpaceRequired: IEEE double; "
@@ -33,5 +37,32 @@ PROPS["C18"] = {
          "covers": ["operator-threshold", "scaled-default", "flat-default", "refused", "accepted"]},
         {"pkg": "internal/pkg/controler/watchers", "func": "VerifH_C18_monotone",
          "covers": ["both-accept", "refuse-then-accept"]},
+    ],
+}
+
+RL = "internal/pkg/archiver/ratelimiter"
+_c13 = {"abstract_time": True, "solver": "z3-new,cvc5", "timeout_ms": 90000}
+PROPS["C13"] = {
+    "level": "proof",
+    "explanation": "inductive-step lemmas: each real tokenBucket method (refill, Wait, adjustOnFailure, onSuccess) is executed symbolically from an ARBITRARY "
+                   "bucket state satisfying the stated invariant (all fields symbolic IEEE doubles / 64-bit ints, clock symbolic); z3/cvc5 answer unsat for the negation "
+                   "of each post-condition, so the lemmas hold for histories of any length. The window bound 'releases in T <= capacity + T x configured rate' follows from "
+                   "the lemmas by the usual token-bucket argument (DESIGN.md section 5/C13).",
+    "bounds": "no bound on history length (induction); values: capacity in [1,2^20], configured rate in (0,2^20], failure streak < 2^40, virtual clock within 2^50 ns; "
+              "Wait explored for at most two loop iterations; getBucket/evictLFU with <=3 hosts",
+    "outside": "wall-clock (non-monotonic) time values; concurrent callers are serialised by tb.mu (method bodies run under the mutex - checked structurally by executing Lock/Unlock intrinsics)",
+    "assumptions": COMMON_ASSUME + [
+        "time.Time values are monotonic clock readings of one process (time.Now); Time.Add/Sub/Before/After/Equal are modelled on the monotonic reading exactly as the std library does for such values (incl. Sub saturation); the zero Time is before every reading",
+        "math.Pow(2,n)/(0.5,n) for integral n: exact power-of-two construction incl. overflow to +Inf and underflow through subnormals to 0",
+        "real-number step used outside the solver: refillRate <= idealRate and elapsed >= 0 imply elapsed*refillRate <= elapsed*idealRate",
+    ],
+    "harnesses": [
+        {"pkg": RL, "func": "VerifH_C13_penalty", "opts": _c13, "covers": ["long-streak", "refill-before-penalty-end"]},
+        {"pkg": RL, "func": "VerifH_C13_5xx", "opts": _c13, "covers": ["rate-lowered", "configured-rate-below-half"]},
+        {"pkg": RL, "func": "VerifH_C13_other", "opts": _c13, "covers": ["other-code"]},
+        {"pkg": RL, "func": "VerifH_C13_success", "opts": _c13, "covers": ["rate-recovers", "success-during-penalty"]},
+        {"pkg": RL, "func": "VerifH_C13_refill", "opts": _c13, "covers": ["refill-adds", "refill-after-penalty", "refill-in-penalty"]},
+        {"pkg": RL, "func": "VerifH_C13_wait1", "opts": _c13, "covers": ["wait-during-penalty", "wait-first-iteration"]},
+        {"pkg": RL, "func": "VerifH_C13_wait", "opts": _c13, "thorough_only": True, "covers": ["wait-during-penalty", "wait-first-iteration", "wait-second-iteration"]},
     ],
 }
